@@ -28,9 +28,10 @@ impl Parsable for Glue {
                         )? * negative
                             * i.signum()
                     }
-                    InternalNumber::Dimen(d) => d * negative,
+                    // The values of variables may be -2^31, so negating them wraps like in TeX.
+                    InternalNumber::Dimen(d) => d.wrapping_mul(negative),
                     InternalNumber::Glue(g) => {
-                        return Ok(g * negative);
+                        return Ok(g.wrapping_mul(negative));
                     }
                 }
             }
